@@ -383,7 +383,7 @@ fn witness(cfg: Cfg, ops: &[Op], log: &[serde_json::Value], why: &str) -> serde_
 }
 
 pub fn run(args: Args) {
-    crate::sim::watchdog(&args, if args.tier == kvcore::Tier::Thorough { 2700 } else { 600 });
+    crate::sim::watchdog(&args, if args.tier == kvcore::Tier::Thorough { 3600 } else { 900 });
     let mut run = Run::new(
         args.clone(),
         "exploration",
